@@ -1762,6 +1762,28 @@ func (m *Model) KillOperation(name string, code, text string) string {
 	return "OK"
 }
 
+// KillLookup mirrors the first half of KillOperations by name: the lookup
+// under the lock, before the unlocked authorization step.
+func (m *Model) KillLookup(name string) (*MOp, bool) {
+	m.Enter()
+	o, ok := m.Ops[name]
+	return o, ok
+}
+
+// KillAuthorized mirrors the second half: after authorization the operation
+// is killed if the name still refers to the same operation; otherwise the
+// call retries and finds nothing (names are never reused).
+func (m *Model) KillAuthorized(o *MOp, name, code, text string) string {
+	m.Enter()
+	if cur, ok := m.Ops[name]; !ok || cur != o {
+		m.Sit("kill:operation-gone-during-authorization")
+		return "NotFound"
+	}
+	m.Sit("kill:authorized-after-gate")
+	m.complete(o.Task, &MResp{Code: code, Text: text}, false)
+	return "OK"
+}
+
 // KillQueue mirrors KillOperations with a size-class-queue-without-workers filter.
 func (m *Model) KillQueue(prefix string, props [][2]string, sizeClass uint32, code, text string) string {
 	if !PlatformSorted(props) {
